@@ -31,3 +31,34 @@ Definition c13_read_full_current : bool := true.
 (** baseorbitdb DetermineAddress rejects a result whose root differs from the manifest CID
     (true, fix: commit); false = pinned: ".." segments of the name could replace the root. *)
 Definition c14_root_checked_current : bool := true.
+
+(** base_store.go Sync skips heads that are nil / typed-nil or lack identity, signatures,
+    clock or hash before dereferencing them, and starts replication for the verified heads
+    only (true, fix: commit); false = pinned: nil dereference on {"heads":[null]}, {"heads":[{}]}. *)
+Definition sync_validates_heads_current : bool := true.
+(** directchannel handleNewPeer compares the uint64 length with the cap before converting
+    (true, fix: commit); false = pinned: a length >= 2^63 becomes negative and make() panics. *)
+Definition frame_unsigned_cmp_current : bool := true.
+
+(** C15: base_store.go Load treats a non-positive limit as unlimited / never hands Join a size
+    larger than the joined log (true, fix: commit c8a932e); false = pinned. *)
+Definition c15_normalises_current : bool := true.
+Definition c15_clamps_current : bool := true.
+
+(** C09: a store's write listener ignores EventWrite of other addresses / the replicator has a
+    private bus (true, fix: commit 9f1c9ae); false = pinned: shared bus cross-talk. *)
+Definition c09_filters_address_current : bool := true.
+Definition c09_private_bus_current : bool := true.
+
+(** C03: CanAppend binds the entry key to the claimed identity (true, fix: commit d5f5788);
+    C04: a fetched log with a foreign-log head is not joined (true, fix: commit cbfcd97). *)
+Definition c03_binds_identity_current : bool := true.
+Definition c04_filters_foreign_current : bool := true.
+
+(** C10/C11: the replicator and merge mechanisms of this tree are [rmech_fixed] (Model/Replicator.v):
+    loads detached from the caller's context (fix: 0d70572), failed fetches retried (fix: 45dda21),
+    merge continues after a rejected log (fix: 34e345b).  Corr/C10.v and Corr/C11.v use it. *)
+
+(** C17: AddOperation's append + persist + index update form one critical section (true, fix:
+    commit); false = pinned: only the append is atomic. *)
+Definition c17_atomic_current : bool := true.
